@@ -4,6 +4,9 @@
 #include <yaclib/fault/detail/fiber/scheduler.hpp>
 
 #include <cstdio>
+#ifdef YACLIB_VERIF
+#  include <yaclib/fault/verif_hook.hpp>
+#endif
 
 namespace yaclib::fault {
 
@@ -91,7 +94,17 @@ void Scheduler::RunLoop() {
     auto* next = GetNext();
     sCurrent = next;
     TickTime();
+#ifdef YACLIB_VERIF
+    if (verif::gHooks != nullptr && verif::gHooks->on_resume != nullptr) {
+      verif::gHooks->on_resume(next->GetId());
+    }
+#endif
     next->Resume();
+#ifdef YACLIB_VERIF
+    if (verif::gHooks != nullptr && verif::gHooks->on_suspend != nullptr) {
+      verif::gHooks->on_suspend();
+    }
+#endif
     if (next->GetState() == detail::fiber::Completed && !next->IsThreadAlive()) {
       delete next;
     }
@@ -145,6 +158,13 @@ void SetRandomListPick(std::uint32_t k) noexcept {
 }
 
 Node* PollRandomElementFromList(BiList& list) {
+#ifdef YACLIB_VERIF
+  if (verif::gHooks != nullptr && verif::gHooks->pick != nullptr) {
+    auto* chosen = list.GetElement(verif::gHooks->pick(list.Size()), false);
+    chosen->Erase();
+    return chosen;
+  }
+#endif
   auto rand_pos = detail::GetRandNumber(2 * sRandomListPick);
   auto reversed = false;
   if (rand_pos >= sRandomListPick) {
